@@ -171,9 +171,28 @@ class Slice:
 Slice.empty = Slice(Fragment.empty, 0, 0)
 
 
+def open_depths_fit(slice: Slice) -> bool:
+    if slice.open_start < 0 or slice.open_end < 0:
+        return False
+    node = slice.content.first_child
+    for _ in range(slice.open_start):
+        if node is None or node.is_leaf:
+            return False
+        node = node.first_child
+    node = slice.content.last_child
+    for _ in range(slice.open_end):
+        if node is None or node.is_leaf:
+            return False
+        node = node.last_child
+    return True
+
+
 def replace(from_: "ResolvedPos", to: "ResolvedPos", slice: Slice) -> "Node":
     if from_.pos > to.pos:
         msg = "Replaced range ends before it starts"
+        raise ReplaceError(msg)
+    if not open_depths_fit(slice):
+        msg = "Slice is open deeper than its content"
         raise ReplaceError(msg)
     if slice.open_start > from_.depth:
         msg = "Inserted content deeper than insertion position"
